@@ -7,6 +7,8 @@ import re
 import cexpr
 import common
 import c17
+import c18ladder
+import c18gen2
 from c17 import (FRONTEND, SRC, WB_FLAGS, WB_LIBS, drop_calls, function_body, kv, lean_def, match_paren, read, strip_comments,
                  tr_expr, tr_function, tr_locals)
 from common import (BuildError, REPO, cxx_build, drv, first_diff, gen_write, log, sh)
@@ -175,6 +177,18 @@ def gen(ck):
     except cexpr.CExprError as e:
         ck.oblige("gen:guards-translated", "generated", False, "translator cannot read a guard: %s" % e)
         body = FALLBACK
+    try:
+        funcs2 = dict(c17.F_ALIGN)
+        funcs2["isPowerOfTwo"] = ("isPowerOfTwo", ["u64"], "bool")
+        body2, src2 = c18gen2.gen_more(c, consts, funcs2)
+        ck.oblige("gen:guards-translated-2 (pool_create_v1 policy checks, pool_aligned_malloc/realloc checks, reallocAligned copy length + single free under "
+                  "`if (result)`, cache_aligned_allocate wrap test, n*sizeof(T) tests of scalable_allocator / memory_pool_allocator, arguments of "
+                  "cache_aligned_allocator / tbb_allocator, cache_aligned_resource::do_allocate space)", "generated", True, src2)
+        ck.extra["guards2_cxx"] = src2
+    except cexpr.CExprError as e:
+        ck.oblige("gen:guards-translated-2", "generated", False, "translator cannot read a guard: %s" % e)
+        body2 = c18gen2.FALLBACK2
+    body += body2
     gen_write("C18", "open TbbVerif.Generated.C17\nset_option linter.unusedVariables false\n" + body,
               imports=("TbbVerif.Core.Cint", "TbbVerif.Generated.C17"))
     return exe, c
@@ -1091,6 +1105,42 @@ def run_cxx(ck, exe):
         ck.counterexample(CXX_KEY, "; ".join(sorted(notes)), {"engine": "E-REAL", "harness": "harness/c18/cxx.cpp", "args": ["0", "1"], "expect_no": " unchecked "})
 
 
+CXX2_KEYS = {"C1": "cxx-cache-aligned-allocator-n-times-sizeof-wraps", "C2": "cxx-cache-aligned-allocator-n-times-sizeof-wraps",
+             "C7": "cxx-cache-aligned-resource-space-wraps"}
+
+
+def build_cxx2():
+    d = common.ensure_repo_built()
+    libdir = c17.real_lib()
+    libs = ["-L" + libdir, "-ltbbmalloc", "-L" + d, "-ltbb", "-Wl,-rpath," + libdir, "-Wl,-rpath," + d, "-pthread"]
+    return cxx_build("C18", "cxx2", ["harness/c18/cxx2.cpp"], flags=["-O1", "-g", "-pthread", "-std=c++17"], libs=libs)
+
+
+def run_cxx2(ck):
+    """the wrappers that go through libtbb: cache_aligned_allocator, tbb_allocator, cache_aligned_resource, scalable_memory_resource"""
+    exe = build_cxx2()
+    rc, out, err = sh([exe], timeout=300)
+    ls = out.split("\n")
+    viol = [l for l in ls if "VIOLATION" in l]
+    if rc != 0 or "done" not in ls:
+        viol.append("crash rc=%d %s" % (rc, err[-200:]))
+    ck.count(len(ls), ("cxx2",))
+    ck.oblige("monitor:C++ allocator layer through libtbb (cache_aligned_allocator / tbb_allocator / scalable_memory_resource report std::bad_alloc for sizes "
+              "that cannot be served; cache_aligned_resource pads a representable request correctly)", "correspondence", not viol, viol[:3])
+    for v in viol[:1]:
+        ck.counterexample("cxx2:" + v.split()[0], v, {"engine": "E-REAL", "harness": "harness/c18/cxx2.cpp", "args": [], "expect": "no-violation"})
+    by_key = {}
+    for l in ls:
+        if " unchecked " in l:
+            by_key.setdefault(CXX2_KEYS.get(l.split()[0], "cxx2-unchecked-" + l.split()[0]), []).append(l)
+    for key in sorted(set(CXX2_KEYS.values()) | set(by_key)):
+        notes = by_key.get(key, [])
+        ck.oblige("monitor:%s: a size computation that wraps around is refused with std::bad_alloc" % key, "correspondence", not notes, notes)
+        if notes:
+            explain_if_known(ck, key)
+            ck.counterexample(key, "; ".join(notes), {"engine": "E-REAL", "harness": "harness/c18/cxx2.cpp", "args": [], "expect_no": " unchecked "})
+
+
 # ---------------------------------------------------------------------------------------------
 def run(ck):
     ck.rule = ("E-PURE: boundary-biased 64-bit arguments (every 2^k, 2^k±1, products around 2^64, sizes around SIZE_MAX-headers-alignment, every bin "
@@ -1103,18 +1153,28 @@ def run(ck):
         "proved (over guards generated from the source text): calloc multiplication guard exact; getFromLLOCache size computation and wrap test sound for "
         "all sizes and alignments 2^a<=2^63 incl. both alignToBin structures and 2^60 headroom for the back end; posix_memalign/aligned_malloc/"
         "aligned_realloc argument checks exact; allocateAligned sum never wraps; PoolLedger lemmas",
-        "NOT modelled (explored by fault enumeration only): the back end's retry ladder (cache cleanup, coalescing waits), back-reference table growth "
-        "failure, pool_create failing for lack of memory in the default pool, huge pages",
+        "proved on the back-end model (C17's per-operation model + Model/C18Ladder.lean) for every operation sequence and every answer of the raw-memory "
+        "oracle: failure_is_clean, recovery, failure_then_recovery, no_partial_region, large_object_failure_is_clean, pool_blocks_inside_own_regions, "
+        "pool_identify_sound, fixed_pool_single_raw_call, pool_reset_destroy_return_once; the model is compared with the real Backend state by state under "
+        "scripted refusal patterns (checks/c18ladder.py)",
+        "NOT modelled: the large-object cache and the per-thread caches as rungs of the ladder (softCachesCleanup / the front-end part of hardCachesCleanup: in the "
+        "back-end drive they are empty), concurrent callers of the ladder (memExtendingSema, blocksInProgress counters: the model is per serialised operation; C17 "
+        "covers the guarded-size protocol per atomic access), getEmptyBlock's roll-back when the back-reference table cannot grow (modelled, theorem only for the "
+        "large-object path; E-REAL back-reference exhaustion scenario), StartupBlock / TLS creation failure (E-REAL first-touch matrix only), huge pages; C17's ghost "
+        "flag `skip` is an escape clause of recovery / failure_is_clean (checked by the differential, not proved unreachable)",
         "fault positions are enumerated per trace (all k up to a cap, then sampled), not exhaustively over subsets; multi-threaded fault runs accept a "
         "null result whenever any injected failure happened during the call",
         "a raw/OS failure need not surface as a failed call (the back end may satisfy the request from caches): only failures that are reported are checked"]
-    ck.trusted += ["checks/cexpr.py + checks/c17.py Tr2/tr_function + checks/c18.py gen_guards (C++ -> Lean translation of the guards)",
+    ck.trusted += ["checks/cexpr.py + checks/c17.py Tr2/tr_function + checks/c18.py gen_guards + checks/c18gen2.py (C++ -> Lean translation of the guards)",
+                   "harness/c18/ladder.cpp (= harness/c17/be.cpp + ladder / front-end modes: OS layer emulated, raw requests refused by script), "
+                   "lean/TbbVerif/Model/C18LadderDrv.lean, checks/c18ladder.py; harness/c18/cxx2.cpp (real libtbb)",
                    "harness/c17/wb.cpp (OS layer wrapped by macro), harness/c18/pools.cpp, harness/c17/real.cpp -DVERIF_OOM (mmap/munmap/mremap defined in "
                    "the executable so that libtbbmalloc binds to them), harness/c18/cxx.cpp",
                    "correspondence is differential/sampled, not proved"]
     exe, c = gen(ck)
     ck.lean_stage()
     run_pure(ck, exe, c)
+    c18ladder.run(ck)
     libdir, pools, oom, cxx = build_real()
     ck.extra["libtbbmalloc"] = libdir
     reset_defect = run_reset_race(ck, pools)
@@ -1126,11 +1186,14 @@ def run(ck):
     run_first_touch_os(ck, oom)
     run_huge_realloc(ck, oom, pools)
     run_cxx(ck, cxx)
+    run_cxx2(ck)
 
 
 def replay(ck, obj):
     r = obj["replay"]
     h = r.get("harness", "")
+    if h.endswith("ladder.cpp"):
+        return c18ladder.replay(ck, r)
     if h.endswith("wb.cpp"):
         exe = cxx_build("C18", "wb", ["harness/c17/wb.cpp"], flags=WB_FLAGS, libs=WB_LIBS)
         _, c = c17.wb_consts("C18")
@@ -1139,6 +1202,12 @@ def replay(ck, obj):
         bad = "crash" if rc != 0 else pure_monitor(r["stdin"], out.strip(), c)
         print("STILL FAILS: %s" % bad if bad else "property holds now")
         return 1 if bad else 0
+    if h.endswith("cxx2.cpp"):
+        rc, out, err = sh([build_cxx2()], timeout=300)
+        print(out)
+        still = "VIOLATION" in out or rc != 0 or ("expect_no" in r and r["expect_no"] in out)
+        print("STILL FAILS" if still else "property holds now")
+        return 1 if still else 0
     libdir, pools, oom, cxx = build_real()
     if h.endswith("cxx.cpp"):
         rc, out, err = sh([cxx] + r.get("args", []), timeout=300)
